@@ -704,3 +704,30 @@ func ruleA2Reentrant(c *Ctx) {
 		c.S.Undecided("A2-reentrant", "handlers", "-", "no queueable handlers")
 	}
 }
+
+const textC09Bind = "R-C09-bind: the database a prepared (possibly queued) command is bound to never changes after the command context is built: no store to dataStoreCommand.ds outside its constructor — EXEC holds exactly the database its queued commands were bound to"
+
+func ruleC09Bind(c *Ctx) {
+	c.S.Rule("R-C09-bind", textC09Bind, 1)
+	f := c.Field("dataStoreCommand", "ds")
+	if f == nil {
+		c.S.Undecided("R-C09-bind", "anchor", "-", "dataStoreCommand.ds not found")
+		return
+	}
+	for _, fn := range c.SrcFuncs() {
+		n := 0
+		for _, in := range instrsOf(fn) {
+			st, ok := isStoreTo(in, f)
+			if !ok {
+				continue
+			}
+			n++
+			key := fmt.Sprintf("%s:store#%d", fnName(fn), n)
+			if isFresh(st.Addr.(*ssa.FieldAddr).X) {
+				c.S.OK("R-C09-bind", key, c.Pos(st.Pos()), "constructor of the command's lock object")
+			} else {
+				c.S.Bad("R-C09-bind", key, c.Pos(st.Pos()), fmt.Sprintf("%s re-binds an existing command to another database: under EXEC it would run on a database EXEC does not hold", fnName(fn)))
+			}
+		}
+	}
+}
